@@ -4,12 +4,13 @@ import lib, uris
 from lib import enc, enc_s, dec, show
 
 PID = "C09"
-SHAPES = {"14": "c08_abs_exposes_dslash", "71": "c08_rel_cancels", "72": "c08_rel_exposes_colon", "73": "c08_rel_exposes_empty"}
+SHAPES = {"14": "c08_abs_exposes_dslash", "71": "c08_rel_cancels", "74": "c08_rel_stale_dot", "75": "c08_rel_dot_eaten", "72": "c08_rel_exposes_colon", "73": "c08_rel_exposes_empty"}
 
 def gen(chk, mdl):
     q = chk.tier == "quick"
     refs = uris.valid_texts(mdl, uris.small_texts(3 if q else 4, queries=(None,)))
     refs += uris.valid_texts(mdl, uris.small_texts(2, alphabet=["a", "..", ".", "%41", "B:c"], auths=(None, "//H"), schemes=(None, "S"), queries=(None, "%7e"), frags=(None, "F")))
+    refs += ["./b:c/" + "/".join(t) for n in range(1, 4) for t in __import__("itertools").product(["..", ".", "x", ""], repeat=n)]
     refs = [r for r in sorted(set(refs)) if "%2e" not in r.lower()]          # the property excludes percent-encoded dot segments
     bases = [t for t in uris.valid_texts(mdl, uris.small_texts(2, queries=(None, "q"))) if t.startswith("s:")]
     bases += ["s://u@[::1]:8/a/b?q", "S://H/%41/b", "s:a/b/c", "s:/a/b/c"]
@@ -53,7 +54,8 @@ def run(chk):
     shp = lib.run_lines(mdl, ["shape_c08 %s %s %s" % (enc_s(r), spec_n[r], nt) for (r, b, fl, o, i, nt) in suspects])
     for (r, b, fl, o, i, nt), sh in zip(suspects, shp):
         name = SHAPES.get(sh)
-        if name == "c08_rel_cancels" and fnd.covers(name, {"reference": r, "base": b}): continue
+        # only the shapes that change what the reference identifies can break the commutation
+        if name in ("c08_rel_cancels", "c08_rel_dot_eaten") and fnd.covers(name, {"reference": r, "base": b}): continue
         chk.violation("normalize(resolve(normalize(R), B)) differs from normalize(resolve(R, B))",
                       {"request": reqs[i], "reference": r, "base": b, "build": fl, "impl": o, "shape": name})
     # kind preservation of normalization on R alone
